@@ -172,7 +172,7 @@ class IntermediateCodeGen(AbstractCodeGen):
             if moduleCompliance:
                 self._complianceOids.append(outDict['oid'])
 
-    def genNumericOid(self, oid):
+    def genNumericOid(self, oid, _seen=()):
         numericOid = ()
 
         for part in oid:
@@ -188,7 +188,11 @@ class IntermediateCodeGen(AbstractCodeGen):
 
                 if parent not in self.symbolTable[module]:
                     raise error.PySmiSemanticError('no symbol "%s" in module "%s"' % (parent, module))
-                numericOid += self.genNumericOid(self.symbolTable[module][parent]['oid'])
+                if (module, parent) in _seen:
+                    raise error.PySmiSemanticError('circular OID definition of symbol "%s" in module "%s"' % (parent, module))
+
+                numericOid += self.genNumericOid(self.symbolTable[module][parent]['oid'],
+                                                 _seen + ((module, parent),))
 
             else:
                 numericOid += (part,)
